@@ -1,21 +1,533 @@
-//! Monitor for property C04 (see /verif/DESIGN.md §6).
+//! Monitor for property C04 — a Knuth–Plass breaking pass returns breakpoints iff a feasible
+//! sequence exists, and the result is demerit-optimal under TeX's definition; looseness
+//! (DESIGN.md §6 C04; TeX: The Program §813–§890).
+//!
+//! Observed events: the return value of the real
+//! `boxworks_knuthplass::LineBreaker::break_line_single_attempt(list, font_repo, tolerance,
+//! emergency_stretch, force_solution=false)` and the complete `debug::Logger` trace (every feasible
+//! breakpoint, every new active node, the selected node); for non-zero looseness additionally the
+//! same call with `force_solution=true` (TeX's final pass) on instances the model finds feasible.
+//!
+//! Oracle: `vmodels::knuthplass` — an evaluator written from the definitions (legal breakpoints,
+//! line material with discarding, badness, fitness classes, demerits, looseness) with a DP and a
+//! brute-force enumerator that must agree. Checks: (1) online trace check: every logged feasible
+//! breakpoint carries exactly the model's badness, penalty and demerits for its (predecessor, elem)
+//! pair, every new node's class/line/total follows from a logged break and is the cheapest offered
+//! for its (line, class), and every feasible line end was offered to every node while TeX keeps it
+//! active; (2) optimality: `Some(bps)` is feasible with exactly the minimal total, `None` ⇔ no
+//! feasible sequence; (3) looseness per §875 / §873.
+//!
+//! Known findings are attributed by trigger predicate + deviation model (`Rule::Deviation`).
+
+pub mod cal;
+pub mod gen;
+pub mod judge;
+
+use boxworks::ds;
+use boxworks_knuthplass as kp;
+use common::{GlueOrder, Scaled};
+use gen::{Style, SynthFont, PT};
+use judge::{judge_all, observe, to_items, to_params, Instance, Observation, Stats, Verdict};
 use vcore::*;
+use vmodels::knuthplass as model;
+use vmodels::knuthplass::{Item, Model, Rule};
 
 pub struct M;
 pub static MONITOR: M = M;
+
+pub const KNOWN_KERN: &str = "C04-explicit-kern-break-width-sign";
+pub const KNOWN_RUN: &str = "C04-discardables-after-break-not-discarded";
+
+#[derive(Default)]
+pub struct Tally(std::collections::BTreeMap<String, u64>);
+impl Tally {
+    pub fn hit(&mut self, k: &str) {
+        self.add(k, 1)
+    }
+    pub fn add(&mut self, k: &str, n: u64) {
+        if let Some(v) = self.0.get_mut(k) {
+            *v += n;
+        } else {
+            self.0.insert(k.to_string(), n);
+        }
+    }
+    pub fn flush(self, obs: &mut Obs) {
+        for (k, v) in self.0 {
+            obs.add(&k, v);
+        }
+    }
+}
+
+pub fn describe(list: &[ds::Horizontal]) -> Vec<String> {
+    const O: [&str; 4] = ["", "fil", "fill", "filll"];
+    list.iter()
+        .enumerate()
+        .map(|(i, e)| {
+            use ds::Horizontal as H;
+            let s = match e {
+                H::Char(c) => format!("char {:?} f{}", c.char, c.font),
+                H::Ligature(l) => format!("lig {:?} f{}", l.char, l.font),
+                H::HBox(b) => format!("hbox w={}", b.width.0),
+                H::VBox(b) => format!("vbox w={}", b.width.0),
+                H::Rule(r) => format!("rule w={}", r.width.0),
+                H::Glue(g) => format!(
+                    "glue {} plus {}{} minus {}",
+                    g.value.width.0,
+                    g.value.stretch.0,
+                    O[judge::ord_of(g.value.stretch_order) as usize],
+                    g.value.shrink.0
+                ),
+                H::Kern(k) => format!("kern {} {:?}", k.width.0, k.kind),
+                H::Penalty(p) => format!("penalty {}", p.0),
+                H::Math(m) => format!("math {m:?}"),
+                H::Discretionary(d) => format!(
+                    "disc pre={} post={} replace={}",
+                    d.pre_break.len(),
+                    d.post_break.len(),
+                    d.replace_count
+                ),
+                _ => "other".to_string(),
+            };
+            format!("{i}: {s}")
+        })
+        .collect()
+}
+
+fn instance_json(inst: &Instance) -> Value {
+    let p = &inst.params;
+    json!({
+        "list": describe(&inst.list),
+        "line_widths": inst.widths.iter().map(|w| w.0).collect::<Vec<_>>(),
+        "tolerance": inst.tolerance,
+        "emergency_stretch": inst.emergency.0,
+        "params": {
+            "line_penalty": p.line_penalty, "hyphen_penalty": p.hyphen_penalty, "ex_hyphen_penalty": p.ex_hyphen_penalty,
+            "adj_demerits": p.adj_demerits, "double_hyphen_demerits": p.double_hyphen_demerits,
+            "final_hyphen_demerits": p.final_hyphen_demerits, "looseness": p.looseness,
+            "left_skip": format!("{}", p.left_skip), "right_skip": format!("{}", p.right_skip),
+        },
+    })
+}
+
+fn record_stats(st: &Stats, inst: &Instance, tally: &mut Tally) {
+    tally.hit("instances:judged");
+    tally.hit(if st.feasible { "result:feasible-instance" } else { "result:infeasible-instance(None expected and returned)" });
+    if st.feasible && st.lines > 0 {
+        tally.hit(match st.lines {
+            1 => "result:lines=1",
+            2 => "result:lines=2",
+            3 => "result:lines=3",
+            4 | 5 => "result:lines=4-5",
+            _ => "result:lines>=6",
+        });
+    }
+    tally.add("trace:feasible-breaks-checked", st.n_fb as u64);
+    tally.add("trace:new-active-nodes-checked", st.n_nodes as u64);
+    tally.add("trace:breakpoints-with-several-fitness-classes", st.multi_class_breaks as u64);
+    if st.brute_checked {
+        tally.hit("model:dp-cross-checked-by-brute-force");
+    }
+    if st.line_counts_available > 1 {
+        tally.hit("model:several-line-counts-feasible");
+    }
+    if st.ties_possible {
+        tally.hit("result:equal-demerit-optima-with-different-line-counts");
+    }
+    if st.forced_break_inside {
+        tally.hit("class:forced-break-inside-paragraph");
+    }
+    if st.hyphen_demerits_applied {
+        tally.hit("class:double-or-final-hyphen-demerits-applied");
+    }
+    if st.adj_applied {
+        tally.hit("class:adj-demerits-applied");
+    }
+    for (c, seen) in st.classes_seen.iter().enumerate() {
+        if *seen {
+            tally.hit(["class:very-loose-line", "class:loose-line", "class:decent-line", "class:tight-line"][c]);
+        }
+    }
+    for b in &st.badness_seen {
+        match *b {
+            12 => tally.hit("boundary:badness=12"),
+            13 => tally.hit("boundary:badness=13"),
+            99 => tally.hit("boundary:badness=99"),
+            100 => tally.hit("boundary:badness=100"),
+            10000 => tally.hit("boundary:badness=10000"),
+            _ => {}
+        }
+        if *b == inst.tolerance {
+            tally.hit("boundary:badness=tolerance");
+        }
+    }
+    if inst.params.looseness != 0 {
+        tally.hit("looseness:nonzero");
+        if st.feasible {
+            if st.result_none_because_looseness {
+                tally.hit("looseness:unreachable-pass-gives-up");
+            } else {
+                tally.hit("looseness:reached-exactly");
+            }
+            if st.forced_observation_judged {
+                tally.hit("looseness:final-pass-judged");
+                if st.result_none_because_looseness {
+                    tally.hit("looseness:final-pass-settles-for-closest");
+                }
+            }
+        }
+    }
+    if inst.widths.len() > 1 {
+        tally.hit("class:line-widths-vary");
+        if st.lines > inst.widths.len() {
+            tally.hit("class:more-lines-than-width-entries");
+        }
+        if st.lines > 0 && st.lines + 1 >= inst.widths.len() && st.lines <= inst.widths.len() {
+            tally.hit("class:easy-line-boundary");
+        }
+    }
+}
+
+/// Check one instance with an arbitrary font repository. Returns true if it was judged (not skipped).
+pub fn check_instance<F: boxworks::FontRepo>(inst: &Instance, font: &F, obs: &mut Obs, tally: &mut Tally, in_known_phase: bool) -> bool {
+    let items = match to_items(&inst.list, font) {
+        Ok(i) => i,
+        Err(_) => {
+            obs.skip("node kind outside the quantifier");
+            return false;
+        }
+    };
+    let params = match to_params(inst) {
+        Ok(p) => p,
+        Err(_) => {
+            obs.skip("infinite shrink");
+            return false;
+        }
+    };
+    let unforced: Observation = match observe(inst, font, false) {
+        Ok(o) => o,
+        Err(p) => {
+            obs.repo_panic(&p, json!({"instance": instance_json(inst), "force_solution": false}));
+            return false;
+        }
+    };
+    let forced = if inst.params.looseness != 0 { Some(observe(inst, font, true)) } else { None };
+    tally.hit("instances:observed");
+
+    // 1. TeX
+    let vt = judge_all(&items, &params, Rule::Tex, &unforced, forced.as_ref());
+    let (sig, detail) = match vt {
+        Verdict::Pass(st) => {
+            record_stats(&st, inst, tally);
+            tally.hit("verdict:agrees-with-tex-model");
+            if in_known_phase {
+                tally.hit("known-reproducer-now-matches-tex");
+            }
+            finish(inst, &items, &params, &unforced, obs, &st);
+            return true;
+        }
+        Verdict::Skip(r) => {
+            obs.skip(r);
+            return false;
+        }
+        Verdict::Inconclusive(r) => {
+            obs.inconclusive(r);
+            return false;
+        }
+        Verdict::Fail { sig, detail } => (sig, detail),
+    };
+
+    // 2. known findings: trigger predicates (syntactic, on the list) + deviation models
+    let mt = Model::new(items.clone(), params.clone(), Rule::Tex).expect("constructed above");
+    let kern_trig = (0..mt.breaks.len()).any(|a| mt.is_nonzero_kern_break(a));
+    let run_trig = (0..mt.breaks.len()).any(|a| mt.run_after_break_has_dimensions(a));
+    let mut matching: Vec<(Vec<&'static str>, Stats)> = vec![];
+    let mut undecidable = false;
+    let mut dev_details = vec![];
+    for (k, r) in [(true, false), (false, true), (true, true)] {
+        if (k && !kern_trig) || (r && !run_trig) {
+            continue;
+        }
+        let rule = Rule::Deviation { kern_sign_wrong: k, run_not_discarded: r };
+        match judge_all(&items, &params, rule, &unforced, forced.as_ref()) {
+            Verdict::Pass(st) => {
+                let mut ids = vec![];
+                if k {
+                    ids.push(KNOWN_KERN);
+                }
+                if r {
+                    ids.push(KNOWN_RUN);
+                }
+                matching.push((ids, st));
+            }
+            Verdict::Skip(_) | Verdict::Inconclusive(_) => undecidable = true,
+            Verdict::Fail { sig, detail } => dev_details.push(json!({"rule": format!("{rule:?}"), "sig": sig, "what": detail["what"]})),
+        }
+    }
+    if !matching.is_empty() {
+        // only the deviations common to every explanation are certain
+        let common: Vec<&'static str> = [KNOWN_KERN, KNOWN_RUN].into_iter().filter(|id| matching.iter().all(|(ids, _)| ids.contains(id))).collect();
+        let st = matching[0].1.clone();
+        record_stats(&st, inst, tally);
+        if common.is_empty() {
+            tally.hit("known:explained-by-either-deviation-alone");
+        }
+        for id in &common {
+            obs.known(
+                id,
+                json!({"instance": instance_json(inst), "tex_model_says": {"sig": sig, "detail": detail},
+                       "explained_by": matching.iter().map(|(ids, _)| ids.clone()).collect::<Vec<_>>()}),
+            );
+            tally.hit(&format!("known:{id}"));
+        }
+        tally.hit("verdict:agrees-with-deviation-model-of-known-finding");
+        return true;
+    }
+    if undecidable {
+        // a known defect's trigger holds and under its deviation model the instance leaves the
+        // property's quantifier (e.g. non-monotone): neither TeX's nor today's behaviour can be judged
+        obs.skip("trigger of a known finding holds and the instance is undecidable under its deviation model");
+        return false;
+    }
+    // 3. the one documented ambiguity of the definition (empty line inside a run of discardables)
+    if mt.degenerate_empty_lines_differ() {
+        if let Verdict::Pass(st) = judge_all(&items, &params, Rule::TexStopAtNextBreak, &unforced, forced.as_ref()) {
+            record_stats(&st, inst, tally);
+            tally.hit("verdict:agrees-with-tex-model(discard run cut at next break)");
+            return true;
+        }
+    }
+    obs.violation(
+        sig,
+        json!({"instance": instance_json(inst), "tex_model": detail, "kern_trigger": kern_trig, "run_trigger": run_trig, "deviation_models": dev_details}),
+    );
+    true
+}
+
+fn finish(inst: &Instance, items: &[Item], params: &model::Params, o: &Observation, obs: &mut Obs, st: &Stats) {
+    if st.n_breaks > 1 {
+        obs.nontrivial(&(items, params));
+    }
+    if obs.wants_sample() && st.feasible && st.lines >= 2 {
+        obs.sample(json!({
+            "instance": instance_json(inst),
+            "result": o.result,
+            "events_logged": o.events.len(),
+            "feasible_breaks_checked": st.n_fb,
+            "lines": st.lines,
+        }));
+    }
+}
+
+// ------------------------------------------------------------------------------------------
+// fixed reproducers of the known findings
+
+fn word(c: char, n: usize) -> Vec<ds::Horizontal> {
+    (0..n).map(|_| gen::ch(c, 0)).collect()
+}
+
+fn known_instances() -> Vec<Instance> {
+    let mk = |list: Vec<ds::Horizontal>, w: i32, tol: i32| Instance {
+        list,
+        params: kp::Params::plain_tex_defaults(),
+        widths: vec![Scaled(w)],
+        tolerance: tol,
+        emergency: Scaled::ZERO,
+    };
+    let mut v = vec![];
+    // (a) AAAAA kern(4pt explicit) glue BBBBB at 30pt lines with 5pt chars
+    let mut l = word('A', 5);
+    l.push(gen::kern(4 * PT, ds::KernKind::Explicit));
+    l.push(gen::glue(5 * PT, 3 * PT, GlueOrder::Normal, PT));
+    l.extend(word('B', 5));
+    gen::par_end(&mut l);
+    v.push(mk(l, 30 * PT, 10000));
+    // (b) AAAAA glue(5pt) glue(4pt) BB glue(5pt plus 5pt) BB at 30pt: TeX's second line is
+    // "BB BB" = 25pt with 5pt of stretch (b=100); the code keeps the 4pt glue (29pt, b=1)
+    let mut l = word('A', 5);
+    l.push(gen::glue(5 * PT, 0, GlueOrder::Normal, 0));
+    l.push(gen::glue(4 * PT, 0, GlueOrder::Normal, 0));
+    l.extend(word('B', 2));
+    l.push(gen::glue(5 * PT, 5 * PT, GlueOrder::Normal, 0));
+    l.extend(word('B', 2));
+    v.push(mk(l, 30 * PT, 10000));
+    // (c) penalty break followed by glue: AAAAA penalty(0) glue(5pt) BBBBB
+    let mut l = word('A', 5);
+    l.push(gen::penalty(0));
+    l.push(gen::glue(5 * PT, 0, GlueOrder::Normal, 0));
+    l.extend(word('B', 5));
+    v.push(mk(l, 25 * PT, 200));
+    v
+}
+
+// ------------------------------------------------------------------------------------------
+
+const ENUM_MAX_LEN_QUICK: u32 = 6;
+const ENUM_MAX_LEN_THOROUGH: u32 = 7;
+
+fn enum_cases(max_len: u32) -> u64 {
+    (1..=max_len).map(|k| (gen::ENUM_ALPHABET as u64).pow(k)).sum()
+}
+
+fn enum_decode(mut idx: u64) -> Vec<ds::Horizontal> {
+    let a = gen::ENUM_ALPHABET as u64;
+    let mut len = 1;
+    loop {
+        let n = a.pow(len);
+        if idx < n {
+            break;
+        }
+        idx -= n;
+        len += 1;
+    }
+    (0..len)
+        .map(|_| {
+            let c = idx % a;
+            idx /= a;
+            gen::enum_item(c)
+        })
+        .collect()
+}
 
 impl Monitor for M {
     fn id(&self) -> &'static str {
         "C04"
     }
     fn rule(&self) -> String {
-        "not built yet".into()
+        "Each case is a horizontal list + line widths + tolerance + demerit/penalty parameters + looseness, run through the real \
+         break_line_single_attempt (force_solution=false; for looseness != 0 also force_solution=true) with a recording debug::Logger. \
+         Phases: 'known' (fixed reproducers of the known findings), 'enum' (ALL lists of length 1..6 (thorough: 7) over a 7-letter alphabet \
+         {5pt char, stretchable glue, rigid glue, explicit kern, penalty 0, penalty -10000, discretionary} at 2 widths x 2 tolerances), \
+         'small' (random lists with few breakpoints so that the DP is cross-checked by brute force over all subsets), 'random' (text-like clean, \
+         text-like hostile, item soup and 1pt-grid lists of 5-60 items: chars/boxes/rules/ligatures, glue with finite or fil/fill/filll stretch and \
+         finite shrink, both kinds of kerns, penalties in [-20000,20000], discretionaries with 0-2 pre/post/replaced items, math on/off; 1-4 line \
+         widths, tolerance in {-1,0,100,200,1000,10000,random}, random parameters incl. negative adj_demerits, looseness in -2..2), 'books' (the three \
+         book excerpts of the repository set in cmr10, unhyphenated and hyphenated, at random widths). A case is non-trivial if it has at least one \
+         legal breakpoint besides the end of the paragraph; distinct = hash of (model items, model parameters)."
+            .into()
     }
     fn assumptions(&self) -> Vec<String> {
-        vec![]
+        vec![
+            "Restriction of the property: per instance (and per model) 'the line a->b is overfull' must be upward closed in b for every line start a and every line-width class, up to the next forced break; other instances are skipped and counted.".into(),
+            "The line from break a excludes every discardable item after a up to the first non-discardable one, exactly as TeX §837 computes break_width (once per breakpoint). For the degenerate empty line whose two ends lie in the same run of discardables TeX §837 and §879 disagree with each other; an implementation following either is accepted.".into(),
+            "In a non-final pass with looseness != 0 TeX (§873, last test) gives the pass up unless the requested looseness is reached exactly: None is then the correct result. The 'closest feasible line count' behaviour of §875 is observed through force_solution=true on instances the model finds feasible.".into(),
+            "Equal-demerit optima are accepted either way (also as the base line count for looseness).".into(),
+            "Instances whose partial demerit totals reach 10^9 (awful_bad = 2^30-1 is TeX's infinity) are skipped.".into(),
+            "Math nodes have no width in the implementation (ds::Math carries none); the model gives them width 0. Infinite shrink (a TeX error, §825) and mark/insertion/adjust/whatsit nodes are not generated. Replaced items of a discretionary are box-like or implicit kerns.".into(),
+            "tolerance <= 10000 (TeX clamps the threshold to inf_bad; the code does not, and larger values are outside the sampled configurations).".into(),
+        ]
     }
-    fn phases(&self, _tier: Tier) -> Vec<Phase> {
-        vec![]
+    fn phases(&self, tier: Tier) -> Vec<Phase> {
+        vec![
+            Phase::new("known", known_instances().len() as u64).batch(1),
+            Phase::new("enum", enum_cases(tier.pick(ENUM_MAX_LEN_QUICK as u64, ENUM_MAX_LEN_THOROUGH as u64) as u32))
+                .batch(512)
+                .exhaustive("all lists of length 1..6 (thorough: 1..7) over {A, glue 5pt+3-1, glue 4pt, explicit kern 4pt, penalty 0, penalty -10000, disc{B}{}{}} x line width {12pt, 21pt} x tolerance {200, 10000}"),
+            Phase::new("small", tier.pick(20_000, 600_000)).batch(128),
+            Phase::new("random", tier.pick(60_000, 3_000_000)).batch(128),
+            Phase::new("books", tier.pick(3 * 2 * 100, 3 * 2 * 4000)).batch(8),
+        ]
     }
-    fn run_case(&self, _phase: &str, _idx: u64, _rng: &mut Rng, _obs: &mut Obs) {}
+    fn floors(&self, tier: Tier) -> Vec<(&'static str, u64)> {
+        let s = tier.pick(1, 30);
+        vec![
+            ("instances:judged", tier.pick(150_000, 4_000_000)),
+            ("verdict:agrees-with-tex-model", tier.pick(80_000, 2_000_000)),
+            ("trace:feasible-breaks-checked", 500_000 * s),
+            ("trace:new-active-nodes-checked", 300_000 * s),
+            ("trace:breakpoints-with-several-fitness-classes", 2_000 * s),
+            ("model:dp-cross-checked-by-brute-force", 100_000 * s),
+            ("model:several-line-counts-feasible", 3_000 * s),
+            ("result:feasible-instance", 40_000 * s),
+            ("result:infeasible-instance(None expected and returned)", 20_000 * s),
+            ("result:lines=2", 5_000 * s),
+            ("result:lines=3", 3_000 * s),
+            ("result:lines=4-5", 2_000 * s),
+            ("result:lines>=6", 300 * s),
+            ("class:very-loose-line", 5_000 * s),
+            ("class:loose-line", 5_000 * s),
+            ("class:decent-line", 5_000 * s),
+            ("class:tight-line", 5_000 * s),
+            ("class:adj-demerits-applied", 2_000 * s),
+            ("class:double-or-final-hyphen-demerits-applied", 2_000 * s),
+            ("class:forced-break-inside-paragraph", 5_000 * s),
+            ("class:line-widths-vary", 5_000 * s),
+            ("class:more-lines-than-width-entries", 500 * s),
+            ("class:easy-line-boundary", 500 * s),
+            ("boundary:badness=12", 200 * s),
+            ("boundary:badness=13", 200 * s),
+            ("boundary:badness=99", 100 * s),
+            ("boundary:badness=100", 100 * s),
+            ("boundary:badness=tolerance", 300 * s),
+            ("looseness:reached-exactly", 500 * s),
+            ("looseness:unreachable-pass-gives-up", 500 * s),
+            ("looseness:final-pass-judged", 1_000 * s),
+            ("looseness:final-pass-settles-for-closest", 300 * s),
+            ("books:instances-judged", tier.pick(200, 8_000)),
+        ]
+    }
+    fn calibrate(&self, obs: &mut Obs) {
+        cal::calibrate(obs);
+    }
+    fn run_case(&self, phase: &str, idx: u64, rng: &mut Rng, obs: &mut Obs) {
+        let mut tally = Tally::default();
+        match phase {
+            "known" => {
+                let inst = known_instances().swap_remove(idx as usize);
+                check_instance(&inst, &SynthFont, obs, &mut tally, true);
+            }
+            "enum" => {
+                let list = enum_decode(idx);
+                for w in [12 * PT, 21 * PT] {
+                    for tol in [200, 10000] {
+                        let inst = Instance {
+                            list: list.clone(),
+                            params: kp::Params::plain_tex_defaults(),
+                            widths: vec![Scaled(w)],
+                            tolerance: tol,
+                            emergency: Scaled::ZERO,
+                        };
+                        check_instance(&inst, &SynthFont, obs, &mut tally, false);
+                    }
+                }
+            }
+            "small" => {
+                // few breakpoints: short text-like lists in every style
+                let style = *rng.pick(&[Style::Clean, Style::Clean, Style::Hostile, Style::Grid, Style::Grid]);
+                let mut inst = gen::rand_instance(rng, style);
+                // cut the list so that few breakpoints remain (keeps replaced ranges intact: cut at a glue)
+                let keep = rng.range_usize(4, 26);
+                if inst.list.len() > keep {
+                    let cut = (keep..inst.list.len()).find(|i| matches!(inst.list[*i], ds::Horizontal::Glue(_))).unwrap_or(inst.list.len());
+                    inst.list.truncate(cut);
+                    if rng.chance(3, 4) {
+                        gen::par_end(&mut inst.list);
+                    }
+                }
+                check_instance(&inst, &SynthFont, obs, &mut tally, false);
+            }
+            "books" => {
+                cal::books_case(idx, rng, obs, &mut tally);
+            }
+            _ => {
+                let style = match rng.below(20) {
+                    0..=7 => Style::Clean,
+                    8..=12 => Style::Hostile,
+                    13..=15 => Style::Soup,
+                    _ => Style::Grid,
+                };
+                tally.hit(match style {
+                    Style::Clean => "style:clean",
+                    Style::Hostile => "style:hostile",
+                    Style::Soup => "style:soup",
+                    Style::Grid => "style:grid",
+                });
+                let inst = gen::rand_instance(rng, style);
+                check_instance(&inst, &SynthFont, obs, &mut tally, false);
+            }
+        }
+        tally.flush(obs);
+    }
+    fn stack_bytes(&self) -> usize {
+        256 << 20
+    }
 }
